@@ -90,6 +90,12 @@ def handle : List String → Option String
         if fragile eps (pre3 mode T csS csD rnd v0 v1 v2) then "?"
         else if csS.valid p then toString ((p.1 * csS.n1 + p.2.1) * csS.n2 + p.2.2) else "-1"
       pure (s!"{csD.n0} {csD.n1} {csD.n2} | " ++ " ".intercalate cells)) rest
+  | "ctmeta" :: rest => run (do
+      -- ctmeta kind srcdims(2) srcorigin(2) <n> others.. dstdims(2) dstorigin(2) -> kind | dimensions | origin | others
+      let kind ← P.nat; let sd ← P.rep P.rat 2; let so ← P.rep P.rat 2; let oth ← P.list P.nat
+      let dd ← P.rep P.rat 2; let dor ← P.rep P.rat 2; P.done
+      let r := coordTransfCall kind ⟨sd, so, oth⟩ dd dor
+      pure (s!"{r.1} | {showRats r.2.dimensions} | {showRats r.2.origin} | {showNats r.2.other}")) rest
   | "isoshift" :: rest => run (do
       let csS ← pCS2; let csD ← pCS2; let k0 ← P.int; let k1 ← P.int; P.done
       pure (showV2s [isoShiftVec csS csD k0 k1])) rest
